@@ -176,6 +176,18 @@ class Mod(V):
         return f"Mod({self.module.name})"
 
 
+class Meth(V):
+    """``x.name`` read without calling it: the bound method (or plain attribute) of a value that is not a known
+    function; opaque unless it is called."""
+    __slots__ = ("recv", "name")
+
+    def __init__(self, recv, name):
+        self.recv, self.name = recv, name
+
+    def __repr__(self):
+        return f"<attribute {self.name}>"
+
+
 class Bi(V):
     """A builtin / external callable known by name."""
     __slots__ = ("name",)
@@ -758,7 +770,7 @@ class Flow:
                         return TOP
                     return Fn(m, [], m._module, bound=v if isinstance(v, Inst) and "staticmethod" not in decos else None,
                               clsq=m._cls)
-            return TOP
+            return Meth(v, n.attr)
         if isinstance(n, ast.Call):
             return self.call(n, fr)
         if isinstance(n, ast.Lambda):
@@ -866,39 +878,44 @@ class Flow:
         if isinstance(f, ast.Attribute):
             recv = self.ev(f.value, fr)
             pos, kw, star = self._args(n, fr)
-            if fr.record and self.on_call:
-                self.on_call(self, fr, n, f.attr, recv, pos, kw, star)
-            if isinstance(recv, _Cell):
-                recv = recv.find()
-            if isinstance(recv, Mod):
-                return self.call_value(self.module_name(recv.module, f.attr), pos, kw, star, fr, n)
-            if isinstance(recv, (Seq, Map, Tup, Mark)):
-                return self.container_method(recv, f.attr, pos, kw, star)
-            if isinstance(recv, (Cls, Inst)):
-                m = self.find_method(recv.module, recv.clsq, f.attr)
-                if m is not None:
-                    decos = [U(d).split(".")[-1].split("(")[0] for d in m.decorator_list]
-                    bound = recv if isinstance(recv, Inst) and "staticmethod" not in decos else None
-                    if isinstance(recv, Cls) and "classmethod" in decos:
-                        bound = recv
-                    return self.call_fn(Fn(m, [], m._module, bound=bound, clsq=m._cls), pos, kw, star, fr, n)
-            if isinstance(recv, Bi):
-                return self.builtin(f"{recv.name}.{f.attr}", pos, kw, star, fr)
-            # unknown receiver: the methods of that name that can reach a source
-            if self.relevant(f.attr):
-                cands = [m for m in self.methods_named(f.attr) if _accepts(m, len(pos), kw, star)]
-                if 0 < len(cands) <= 6:
-                    out = BOT
-                    for m in cands:
-                        out = join(out, self.call_fn(Fn(m, [], m._module, bound=Inst(m._module, m._cls), clsq=m._cls),
-                                                     pos, kw, star, fr, n))
-                    return out
-            return TOP
+            return self.call_attr(recv, f.attr, pos, kw, star, fr, n)
         fv = self.ev(f, fr)
         pos, kw, star = self._args(n, fr)
+        if isinstance(fv, Meth):        # a bound method that was stored in a name first
+            return self.call_attr(fv.recv, fv.name, pos, kw, star, fr, n)
         if fr.record and self.on_call:
             self.on_call(self, fr, n, None, fv, pos, kw, star)
         return self.call_value(fv, pos, kw, star, fr, n)
+
+    def call_attr(self, recv, attr, pos, kw, star, fr, n):
+        if fr.record and self.on_call:
+            self.on_call(self, fr, n, attr, recv, pos, kw, star)
+        if isinstance(recv, _Cell):
+            recv = recv.find()
+        if isinstance(recv, Mod):
+            return self.call_value(self.module_name(recv.module, attr), pos, kw, star, fr, n)
+        if isinstance(recv, (Seq, Map, Tup, Mark, View)):
+            return self.container_method(recv, attr, pos, kw, star)
+        if isinstance(recv, (Cls, Inst)):
+            m = self.find_method(recv.module, recv.clsq, attr)
+            if m is not None:
+                decos = [U(d).split(".")[-1].split("(")[0] for d in m.decorator_list]
+                bound = recv if isinstance(recv, Inst) and "staticmethod" not in decos else None
+                if isinstance(recv, Cls) and "classmethod" in decos:
+                    bound = recv
+                return self.call_fn(Fn(m, [], m._module, bound=bound, clsq=m._cls), pos, kw, star, fr, n)
+        if isinstance(recv, Bi):
+            return self.builtin(f"{recv.name}.{attr}", pos, kw, star, fr)
+        # unknown receiver: the methods of that name that can reach a source
+        if self.relevant(attr):
+            cands = [m for m in self.methods_named(attr) if _accepts(m, len(pos), kw, star)]
+            if 0 < len(cands) <= 6:
+                out = BOT
+                for m in cands:
+                    out = join(out, self.call_fn(Fn(m, [], m._module, bound=Inst(m._module, m._cls), clsq=m._cls),
+                                                 pos, kw, star, fr, n))
+                return out
+        return TOP
 
     def call_value(self, fv, pos, kw, star, fr, n):
         if isinstance(fv, Fn):
